@@ -130,8 +130,14 @@ def num_method(name, c):
             if o is False: return r
             b = x.bits
             if x.signed:
-                neg = int_binop("Lt", a[1] if op != "Mul" else x, Int(x.ty, 0))
-                raise Unmodelled("signed saturating op")
+                if op == "Mul": raise Unmodelled("signed saturating_mul")
+                # overflow direction: add -> sign of rhs; sub -> opposite sign of rhs
+                neg = int_binop("Lt", a[1], Int(x.ty, 0))
+                to_min = neg if op == "Add" else b_not(neg)
+                mn, mx = Int(x.ty, 1 << (b - 1)), Int(x.ty, (1 << (b - 1)) - 1)
+                if isinstance(o, bool) and isinstance(to_min, bool):
+                    return (mn if to_min else mx) if o else r
+                return mk_int(x.ty, z3.If(b_z3(o), z3.If(b_z3(to_min), mn.z3(), mx.z3()), r.z3()))
             sat = Int(x.ty, (1 << b) - 1) if op != "Sub" else Int(x.ty, 0)
             if o is True: return sat
             return mk_int(x.ty, z3.If(o, sat.z3(), r.z3()))
